@@ -370,3 +370,16 @@ mutant("C17-M7", "C17", "R17d", "Covout.sample draws even when sigma is None", P
 mutant("C17-M8", "C17", "R17c", "ProgramSet.sample perturbs the source covouts", PR, "ProgramSet.sample", "        for covout in new.covouts.values():", "        for covout in self.covouts.values():")
 mutant("C17-M9", "C17", "R17b", "Program.sample reads a misspelt attribute", PR, "Program.sample", "self.saturation = self.saturation.sample(constant)", "self.saturation = self.saturations.sample(constant)")
 twin("C17-T3", "C17", "ProgramSet.sample via copy.deepcopy", PR, "ProgramSet.sample", "new = sc.dcp(self)", "new = copy.deepcopy(self)")
+
+# =============================================================================================== C18
+FW = "atomica/framework.py"
+mutant("C18-M6", "C18", "R18b", "new raise Exception in _validate_compartments", FW, "ProjectFramework._validate_compartments", "            if [row[\"is sink\"], row[\"is source\"], row[\"is junction\"]].count(\"y\") > 1:", "            if row[\"is sink\"] == \"y\" and row[\"is source\"] == \"y\":\n                raise Exception(\"sink and source\")\n            if [row[\"is sink\"], row[\"is source\"], row[\"is junction\"]].count(\"y\") > 1:")
+mutant("C18-M7", "C18", "R18b", "new assert in _validate_names", FW, "ProjectFramework._validate_names", "        tmp = set()\n        for name in code_names:\n\n            if FS.RESERVED_SYMBOLS", "        tmp = set()\n        assert len(code_names) > 0, \"no names\"\n        for name in code_names:\n\n            if FS.RESERVED_SYMBOLS")
+mutant("C18-M8", "C18", "R18b", "a converting handler narrowed to except ValueError", DA, "ProjectData.from_spreadsheet", "                try:\n                    self._read_pops(sheet)\n                except Exception as e:", "                try:\n                    self._read_pops(sheet)\n                except ValueError as e:")
+mutant("C18-M9", "C18", "R18a", "new message with too few values", FW, "ProjectFramework._validate_names", "raise InvalidFramework('Code name \"%s\" is not valid: it cannot contain any of these reserved symbols %s' % (name, FS.RESERVED_SYMBOLS))", "raise InvalidFramework('Code name \"%s\" is not valid: it cannot contain any of these reserved symbols %s' % (name,))")
+mutant("C18-M10", "C18", "R18a", "str.format with a missing argument", M, "Population.get_links", "raise NotFoundError(\"Object '{0}' not found.\".format(name))", "raise NotFoundError(\"Object '{0}' not found in {1}.\".format(name))", accept_exit2=False)
+mutant("C18-M11", "C18", "R18c", "new dead branch over a literal list", DA, "ProjectData.validate", "                                if obj_type in [\"comps\", \"characs\"] or", "                                if obj_type in [\"comp\", \"charac\"] or")
+mutant("C18-M12", "C18", "R18b", "program book reader raises KeyError-converting handler removed", PR, "ProgramSet.from_spreadsheet", "        try:\n            self._read_spending(workbook[\"Spending data\"], _allow_missing_data=_allow_missing_data)\n        except Exception as e:\n            message = 'Error on sheet \"Spending data\"'\n            raise InvalidProgramBook(\"%s -> %s\" % (message, e)) from e", "        self._read_spending(workbook[\"Spending data\"], _allow_missing_data=_allow_missing_data)")
+mutant("C18-M13", "C18", "R18a", "attribute of a dict record read in a message", FW, "ProjectFramework._validate_parameters", "raise InvalidFramework('Parameter \"%s\" is marked \"is derivative\" but it does not have a parameter function' % (par_name))", "raise InvalidFramework('Parameter \"%s\" is marked \"is derivative\" but it does not have a parameter function' % (par.code_name))")
+twin("C18-T1", "C18", "raise inside a helper called under a converting handler", DA, "ProjectData._read_pops", "        self.pops = sc.odict()\n", "        self.pops = sc.odict()\n        if sheet is None:\n            raise Exception(\"no sheet\")\n")
+twin("C18-T2", "C18", "%-format -> f-string", FW, "ProjectFramework._validate_names", "raise InvalidFramework('Code name \"%s\" is not valid: it cannot contain any of these reserved symbols %s' % (name, FS.RESERVED_SYMBOLS))", "raise InvalidFramework(f'Code name \"{name}\" is not valid: it cannot contain any of these reserved symbols {FS.RESERVED_SYMBOLS}')")
